@@ -45,6 +45,8 @@ class Contract:
     builder: Optional[str] = None   # replay: name of state builder in replay/builders.py
     invariants: bool = True     # class invariants are part of requires/ensures (methods)
     opaque_calls: list[str] = field(default_factory=list)  # callee names treated as havoc-nothing no-raise
+    merge: bool = True          # merge states at control-flow joins (False: one VC set per path)
+    instances: list[dict] = field(default_factory=list)   # named integer constants; the unit is verified once per entry
 
 
 @dataclass
@@ -148,6 +150,23 @@ class Registry:
         sf = SpecFn(name, list(params), body, types)
         self.specfns[name] = sf
         return sf
+
+
+def split_unit(name: str):
+    """'qual@CAP=16,K=2' -> ('qual', {'CAP': 16, 'K': 2})"""
+    base, _, suffix = name.partition("@")
+    inst = {}
+    if suffix:
+        for part in suffix.split(","):
+            k, _, v = part.partition("=")
+            inst[k] = int(v)
+    return base, inst
+
+
+def unit_name(base: str, inst: dict) -> str:
+    if not inst:
+        return base
+    return base + "@" + ",".join(f"{k}={v}" for k, v in sorted(inst.items()))
 
 
 REGISTRY = Registry()
